@@ -47,7 +47,7 @@ func init() {
 		},
 		Parts: []rig.Part{{
 			Name:  "histories",
-			Cases: func(t rig.Tier) int { return map[rig.Tier]int{rig.Quick: 400, rig.Thorough: 8000}[t] },
+			Cases: func(t rig.Tier) int { return map[rig.Tier]int{rig.Quick: 2400, rig.Thorough: 8000}[t] },
 			Run:   c06Case,
 			Procs: 2,
 		}},
